@@ -74,10 +74,55 @@ def _expect(log, s):
     return bad, seen
 
 
+def named_entities(res):
+    """every named character reference of the HTML5 table (python's html.entities.html5: an independent copy of the
+    WHATWG table) through the decoder hook and through the whole pipeline (static text + static attribute)"""
+    import html.entities
+    table = {k[:-1]: v for k, v in html.entities.html5.items() if k.endswith(";")}
+    names = sorted(table)
+    # names that are not in the table must not decode
+    bogus = ["bogus", "ampx", "Lt2", "fjligx", "nbsp1", "AMPP", "q"]
+    p = harness_run(["entnames", res.tier, res.seed], input_bytes=("\n".join(names + bogus) + "\n").encode())
+    lines = [json.loads(l) for l in p.stdout.decode("utf8").split("\n") if l]
+    found = 0
+    n = 0
+    jobs = []
+    e2e = []
+    for l in lines:
+        if l["kind"] == "hook":
+            n += 1
+            want = [ord(c) for c in table[l["name"]]] if l["name"] in table else None
+            if l["decoded"] != want:
+                found += 1
+                if found <= 4:
+                    res.violation("named character reference &%s; decodes to %s, the HTML5 table says %s" % (l["name"], l["decoded"], want),
+                                  {"entity": "&%s;" % l["name"], "decoded_codepoints": l["decoded"], "html5_codepoints": want})
+        else:
+            e2e.append(l)
+            jobs.append({"op": "run", "id": len(jobs), "bundle": l["bundle"], "path": "p", "steps": [{"create": {"$o": {}}}]})
+    out = node_jobs(jobs, shards=8)
+    for l, o in zip(e2e, out):
+        if o.get("error"):
+            raise Infra("entity template failed under node: %s" % o["error"])
+        for nm, node in zip(l["names"], o["trees"][0]):
+            want = "[" + (table[nm] if nm in table else "&%s;" % nm) + "]"
+            got_text = node["ch"][0]["text"] if node.get("ch") else None
+            got_attr = dict((k, v) for k, v in node.get("attrs", [])).get("r:a", {}).get("v")
+            n += 1
+            if got_text != want or got_attr != want:
+                found += 1
+                if found <= 4:
+                    res.violation("&%s; in static text / attribute reaches the runtime as %r / %r, expected %r" % (nm, got_text, got_attr, want),
+                                  {"src": "<v a=\"[&%s;]\">[&%s;]</v>" % (nm, nm), "text": got_text, "attr": got_attr, "expected": want})
+    return n, found
+
+
 def run(res):
     ok, what = proof_phase(res, "C12", THEOREMS)
+    n_ent, f_ent = named_entities(res)
+    res.notes["named_entity_cases"] = n_ent
     r = bulk_compare(["lit", res.tier, res.seed], "C12")
-    found_input = False
+    found_input = f_ent > 0
     for (c, i, m) in r["mismatches"][:5]:
         f = c.split("\t")
         res.violation("%s: implementation and Coq model disagree on %r: impl=%r model=%r" % (
